@@ -79,3 +79,193 @@ Proof.
   - rewrite <- (exits_add_apps _ (flat_map app_of (rev eff))), Ho. now rewrite <- !app_assoc.
   - rewrite <- (exits_add_apps _ (flat_map app_of (rev eff))), Ho. now rewrite <- !app_assoc.
 Qed.
+
+(** * Part 2: the registration state, for ALL programs *)
+
+Lemma exec_snoc st a o : exec st (a ++ [o]) = step (exec st a) o.
+Proof. unfold exec. now rewrite fold_left_app. Qed.
+
+Lemma find_snoc {A} (f : A -> bool) l x :
+  find f (l ++ [x]) = match find f l with Some y => Some y | None => if f x then Some x else None end.
+Proof. induction l as [|a l IH]; simpl; [reflexivity|]. now destruct (f a). Qed.
+
+Lemma existsb_find {A} (f : A -> bool) l :
+  existsb f l = match find f l with Some _ => true | None => false end.
+Proof. induction l as [|a l IH]; simpl; [reflexivity|]. now destruct (f a). Qed.
+
+Lemma find_map_inv {A} (f : A -> bool) (g : A -> A) l :
+  (forall x, f (g x) = f x) -> find f (map g l) = option_map g (find f l).
+Proof. intros H. induction l as [|a l IH]; simpl; [reflexivity|]. rewrite H. now destruct (f a). Qed.
+
+Lemma find_is_add n l x : find (is_add n) l = Some x -> exists h, x = OAddHandler h /\ N.eqb (h_name h) n = true.
+Proof. intros F. apply find_some in F as [_ F]. destruct x; simpl in F; try discriminate. eauto. Qed.
+
+Lemma spec_cfg_snoc n l o :
+  spec_cfg n (l ++ [o]) =
+  match spec_cfg n l with
+  | Some h => Some h
+  | None => match o with OAddHandler h => if N.eqb (h_name h) n then Some h else None | _ => None end
+  end.
+Proof.
+  unfold spec_cfg. rewrite find_snoc. destruct (find (is_add n) l) eqn:F.
+  - apply find_is_add in F as (h & -> & _). reflexivity.
+  - destruct o; simpl; try reflexivity. now destruct (N.eqb (h_name h) n).
+Qed.
+
+Lemma spec_cfg_existsb n l :
+  existsb (is_add n) l = match spec_cfg n l with Some _ => true | None => false end.
+Proof.
+  rewrite existsb_find. unfold spec_cfg. destruct (find (is_add n) l) eqn:F; [|reflexivity].
+  apply find_is_add in F as (h & -> & _). reflexivity.
+Qed.
+
+Lemma scan_snoc n : forall l a o,
+  scan n a (l ++ [o]) =
+  match scan n a l with
+  | Some p => Some p
+  | None => if is_start o && (a || existsb (is_add n) l) then Some l else None
+  end.
+Proof.
+  induction l as [|x l IH]; intros a o; simpl.
+  - rewrite orb_false_r. now destruct (is_start o && a).
+  - destruct (is_start x && a); [reflexivity|]. rewrite IH.
+    destruct (scan n (a || is_add n x) l); simpl; [reflexivity|].
+    rewrite orb_assoc. now destruct (is_start o && (a || is_add n x || existsb (is_add n) l)).
+Qed.
+
+Lemma spec_started_snoc n l o :
+  spec_started n (l ++ [o]) =
+  match spec_started n l with
+  | Some s => Some s
+  | None => if is_start o && existsb (is_add n) l
+            then Some (ST (regs_of l) (pdecs_of l) (sdecs_of l)) else None
+  end.
+Proof.
+  unfold spec_started. rewrite scan_snoc. destruct (scan n false l); [reflexivity|]. simpl.
+  now destruct (is_start o && existsb (is_add n) l).
+Qed.
+
+Lemma scan_not_added n l : existsb (is_add n) l = false -> scan n false l = None.
+Proof.
+  induction l as [|x l IH]; simpl; [reflexivity|]. intros H. apply orb_false_iff in H as [H1 H2].
+  rewrite andb_false_r, H1. simpl. now rewrite IH.
+Qed.
+
+Lemma spec_started_not_added n l : spec_cfg n l = None -> spec_started n l = None.
+Proof.
+  intros H. unfold spec_started. rewrite scan_not_added; [reflexivity|].
+  now rewrite spec_cfg_existsb, H.
+Qed.
+
+Definition hname (hs : hstate) : N := h_name (hs_cfg hs).
+Definition names (st : rstate) : list N := map hname (handlers st).
+
+Lemma find_none_not_in n l : find (name_is n) l = None -> ~ In n (map hname l).
+Proof.
+  induction l as [|a l IH]; simpl; [tauto|]. unfold name_is at 1. fold (hname a).
+  destruct (N.eqb (hname a) n) eqn:E; [discriminate|]. intros F [H|H].
+  - apply N.eqb_neq in E. contradiction.
+  - now apply IH.
+Qed.
+
+Lemma find_in_nodup l hs : NoDup (map hname l) -> In hs l -> find (name_is (hname hs)) l = Some hs.
+Proof.
+  induction l as [|a l IH]; simpl; [tauto|]. intros Hn Hin. inversion Hn as [|? ? Hnot Hn']; subst.
+  unfold name_is at 1. fold (hname a). destruct Hin as [->|Hin].
+  - now rewrite N.eqb_refl.
+  - destruct (N.eqb (hname a) (hname hs)) eqn:E.
+    + apply N.eqb_eq in E. exfalso. apply Hnot. rewrite E. now apply in_map.
+    + now apply IH.
+Qed.
+
+Lemma NoDup_app_one {A} (l : list A) x : NoDup l -> ~ In x l -> NoDup (l ++ [x]).
+Proof.
+  induction l as [|a l IH]; simpl; intros Hn Hx.
+  - constructor; [intros []|constructor].
+  - inversion Hn as [|? ? Ha Hl]; subst. constructor.
+    + rewrite in_app_iff. simpl. intros [H|[H|[]]]; [now apply Ha|]. subst. apply Hx. now left.
+    + apply IH; [assumption|]. intros H. apply Hx. now right.
+Qed.
+
+(** what the state machine holds after a program = what the declarative reading of the program says *)
+Record inv (pre : list op) (st : rstate) : Prop := {
+  inv_mws : mws st = regs_of pre;
+  inv_pd : pubdecs st = pdecs_of pre;
+  inv_sd : subdecs st = sdecs_of pre;
+  inv_find : forall n, find_handler n st =
+                       match spec_cfg n pre with
+                       | Some h => Some (HS h (spec_started n pre))
+                       | None => None end;
+  inv_nodup : NoDup (names st) }.
+
+Lemma inv_init : inv [] rinit.
+Proof. split; try reflexivity. constructor. Qed.
+
+Ltac snoc_simpl :=
+  unfold regs_of, pdecs_of, sdecs_of; rewrite ?flat_map_app; simpl; rewrite ?app_nil_r.
+
+Lemma inv_step pre st o : inv pre st -> inv (pre ++ [o]) (step st o).
+Proof.
+  intros [Hm Hp Hs Hf Hn].
+  assert (Hsame : forall o', is_start o' = false -> (forall n, is_add n o' = false) ->
+            forall n, match spec_cfg n (pre ++ [o']) with
+                      | Some h => Some (HS h (spec_started n (pre ++ [o']))) | None => None end
+                      = find_handler n st).
+  { intros o' H1 H2 n. rewrite spec_cfg_snoc, spec_started_snoc, H1, Hf. simpl.
+    destruct (spec_cfg n pre) eqn:E.
+    - now destruct (spec_started n pre).
+    - specialize (H2 n). destruct o'; simpl in H2; try reflexivity. now rewrite H2. }
+  assert (Hr : forall o', regs_of (pre ++ [o']) = regs_of pre ++ regs_of [o']) by (intros; apply flat_map_app).
+  assert (Hpd : forall o', pdecs_of (pre ++ [o']) = pdecs_of pre ++ pdecs_of [o']) by (intros; apply flat_map_app).
+  assert (Hsd : forall o', sdecs_of (pre ++ [o']) = sdecs_of pre ++ sdecs_of [o']) by (intros; apply flat_map_app).
+  destruct o as [h|id app|hn id app|dd|dd| |dl]; simpl.
+  - (* AddHandler *)
+    destruct (find_handler (h_name h) st) eqn:F.
+    + split; simpl.
+      * now rewrite Hr, app_nil_r.
+      * now rewrite Hpd, app_nil_r.
+      * now rewrite Hsd, app_nil_r.
+      * intros n. rewrite spec_cfg_snoc, spec_started_snoc, Hf. simpl.
+        destruct (spec_cfg n pre) eqn:E.
+        -- now destruct (spec_started n pre).
+        -- destruct (N.eqb (h_name h) n) eqn:En; [|reflexivity].
+           apply N.eqb_eq in En. subst n. rewrite Hf, E in F. discriminate.
+      * assumption.
+    + split; simpl.
+      * now rewrite Hr, app_nil_r.
+      * now rewrite Hpd, app_nil_r.
+      * now rewrite Hsd, app_nil_r.
+      * intros n. unfold find_handler. simpl. rewrite find_snoc. fold (find_handler n st).
+        rewrite spec_cfg_snoc, spec_started_snoc, Hf. simpl.
+        destruct (spec_cfg n pre) eqn:E.
+        -- now destruct (spec_started n pre).
+        -- unfold name_is. simpl. destruct (N.eqb (h_name h) n); [|reflexivity].
+           now rewrite (spec_started_not_added _ _ E).
+      * unfold names. simpl. rewrite map_app. simpl.
+        apply NoDup_app_one; [assumption|]. now apply find_none_not_in.
+  - split; simpl; [now rewrite Hr, Hm | now rewrite Hpd, app_nil_r | now rewrite Hsd, app_nil_r | | assumption].
+    intros n. symmetry. now apply Hsame.
+  - split; simpl; [now rewrite Hr, Hm | now rewrite Hpd, app_nil_r | now rewrite Hsd, app_nil_r | | assumption].
+    intros n. symmetry. now apply Hsame.
+  - split; simpl; [now rewrite Hr, app_nil_r | now rewrite Hpd, Hp | now rewrite Hsd, app_nil_r | | assumption].
+    intros n. symmetry. now apply Hsame.
+  - split; simpl; [now rewrite Hr, app_nil_r | now rewrite Hpd, app_nil_r | now rewrite Hsd, Hs | | assumption].
+    intros n. symmetry. now apply Hsame.
+  - (* Start *)
+    split; simpl; [now rewrite Hr, app_nil_r | now rewrite Hpd, app_nil_r | now rewrite Hsd, app_nil_r | | ].
+    + intros n. unfold find_handler. simpl. rewrite find_map_inv.
+      2:{ intros x. unfold name_is, start_one. now destruct (hs_started x). }
+      fold (find_handler n st). rewrite Hf, spec_cfg_snoc, spec_started_snoc, spec_cfg_existsb. simpl.
+      destruct (spec_cfg n pre) eqn:E; [|reflexivity]. simpl. unfold start_one. simpl.
+      destruct (spec_started n pre); [reflexivity|]. now rewrite Hm, Hp, Hs.
+    + unfold names. simpl. rewrite map_map.
+      erewrite map_ext; [exact Hn|]. intros x. unfold hname, start_one. now destruct (hs_started x).
+  - split; simpl; [now rewrite Hr, app_nil_r | now rewrite Hpd, app_nil_r | now rewrite Hsd, app_nil_r | | assumption].
+    intros n. symmetry. now apply Hsame.
+Qed.
+
+Theorem exec_inv ops : inv ops (exec rinit ops).
+Proof.
+  induction ops as [|o ops IH] using rev_ind; [exact inv_init|].
+  rewrite exec_snoc. now apply inv_step.
+Qed.
